@@ -55,6 +55,9 @@ def run(run):
     from . import common as _common
     _common.delegate(run, "C17.R3", "C08", c08.geometry_premises, only_rules={"C08.R4"}, note="premise: TileLevels of a multi-image mosaic")
     _r4_emitters(run)
+    # the TOAST description carries a Place exactly when the user asked for one: the setting reaches the writer
+    common.option_forwarding(run, "C17.R4", "add_place_for_toast", {FT, BLD},
+                             "so the index_rel.wtml of a TOAST pyramid comes out without (or with) a Place regardless of what was asked for")
     _r5_fits_tiler(run)
     # the description handed back on the reuse path is what the directory's index says *now*: no remembered copy that can
     # survive a rewrite of the directory
@@ -296,6 +299,22 @@ def _r4_emitters(run):
             if callee_attr(c) == "write_index_rel_wtml":
                 sites.append((f, c))
     run.call_sites += len(sites)
+    # a private helper whose only job is the writing ("_write_index") is judged inside the functions that call it
+    from sa.model import inline_helpers
+    expanded = []
+    for f, c in sites:
+        has_pop = any(callee_attr(cc) in POPULATE_BUILDER or callee_attr(cc) in POPULATE_OTHER for cc in own_calls(f.node))
+        callers = [g for g in project.py_funcs() if g is not f and g.module.kind == "py" and any(common.resolve_callee(project, g, cc) is not None
+                   and common.resolve_callee(project, g, cc).qual == f.qual for cc in own_calls(g.node))]
+        if not has_pop and callers and f.name.startswith("_"):
+            for g in callers:
+                g2 = inline_helpers(project, g, lambda owner, call, _f=f: (lambda t: t if (t is not None and t.qual == _f.qual) else None)(common.resolve_callee(project, owner, call)))
+                for cc in own_calls(g2.node):
+                    if callee_attr(cc) == "write_index_rel_wtml":
+                        expanded.append((g2, cc))
+        else:
+            expanded.append((f, c))
+    sites = expanded
     for f, c in sites:
         run.note_func(f)
         cfg = CFG(f.node)
